@@ -72,6 +72,8 @@ type runner struct {
 	// context, cancelled after the call returned (never during it)
 	ensureTerm bool
 	termWaits  int
+	// multi: the factory is combined with a second one through MultiFunctionListenerFactory
+	multi bool
 	// perInstCompile: every instance is a separate CompileModule call with its own factory, all
 	// functions listened: the events of instance i must reach the listeners instance i's factory made
 	perInstCompile bool
@@ -269,6 +271,32 @@ func (r *runner) realHost(ctx context.Context, mod api.Module, stack []uint64) {
 	}
 }
 
+// factory: the recording factory of compilation idx, alone or (multi) combined with a second factory
+// through experimental.MultiFunctionListenerFactory, whose listeners walk the stack iterator too.
+func (r *runner) factory(idx int) experimental.FunctionListenerFactory {
+	if !r.multi {
+		return lfactory{r, idx}
+	}
+	second := experimental.FunctionListenerFactoryFunc(func(def api.FunctionDefinition) experimental.FunctionListener {
+		if !r.listensIdx(idx, def.DebugName()) {
+			return nil
+		}
+		return walkLst{}
+	})
+	return experimental.MultiFunctionListenerFactory(second, lfactory{r, idx})
+}
+
+// walkLst walks the stack it is given and does nothing else.
+type walkLst struct{}
+
+func (walkLst) Before(_ context.Context, _ api.Module, _ api.FunctionDefinition, _ []uint64, si experimental.StackIterator) {
+	for n := 0; si.Next() && n < 600; n++ {
+		_ = si.Function().Definition()
+	}
+}
+func (walkLst) After(context.Context, api.Module, api.FunctionDefinition, []uint64) {}
+func (walkLst) Abort(context.Context, api.Module, api.FunctionDefinition, error)    {}
+
 // listener
 type lfactory struct {
 	r   *runner
@@ -374,7 +402,7 @@ func (r *runner) setup(plans []*plan.Plan, names []string, imports []int) {
 	r.ctx = context.Background()
 	cctx := r.ctx
 	if r.listen {
-		cctx = experimental.WithFunctionListenerFactory(r.ctx, lfactory{r, -1})
+		cctx = experimental.WithFunctionListenerFactory(r.ctx, r.factory(-1))
 	}
 	var cfg wazero.RuntimeConfig
 	if r.engine == "interpreter" {
@@ -407,7 +435,7 @@ func (r *runner) setup(plans []*plan.Plan, names []string, imports []int) {
 			// one compilation per instance, each with its own listener selection (or the SAME selection but
 			// its own listener objects: perInstCompile)
 			cm = nil
-			ictx = experimental.WithFunctionListenerFactory(r.ctx, lfactory{r, i})
+			ictx = experimental.WithFunctionListenerFactory(r.ctx, r.factory(i))
 		}
 		if cm == nil {
 			cm, err = r.rt.CompileModule(ictx, p.Encode())
